@@ -77,6 +77,8 @@ ODD_SNIPPETS = [
     's%d := x if {\n\tfmt := "%s"\n\n\n\tx := sprintf(fmt, [1, 2])\n}',
     's%d := sprintf("%v %v %d", [1])',
     'q%d(x) if 1 == 2\n\nq%d(x) if "a" == x\n\nq%d(x) if x == null',            # comparisons with scalars on either side
+    '# METADATA\n# title: t%d\n# foo: bar\n# custom:\n#   foo: baz\n#   title: inner\n# description: |\n#   foo: in a description\nmd%d := 1',  # unknown attribute, repeated keys
+    '# METADATA\n# scope: rule\n# schemas:\n#   - input: schema.x\n# entrypont: true\nms%d := 1',
     'm%d\n\t= 100',                                                          # operator on a later line than the head
     'm%d[k]\n\t= v if {\n\tsome k, v in input.o\n}',
     'm%d(x)\n\t= y if y := x',
